@@ -1,7 +1,7 @@
 (* Pinned statements of the C16 theorems (must match Properties/C16.v). *)
 From Coq Require Import ZArith NArith List Bool.
 Import ListNotations.
-Require Import TC.Generated.Consts TC.Base.Map TC.Resp.Utf8 TC.Server.Denied TC.Server.Escape.
+Require Import TC.Generated.Consts TC.Base.Map TC.Resp.Utf8 TC.Server.Denied TC.Server.Escape TC.Corr.DeniedCorr TC.Corr.DeniedSound.
 Open Scope Z_scope.
 Require Import TC.Properties.C16.
 
@@ -26,3 +26,6 @@ Check C16_no_raw_control : forall (s : list N), forallb raw_safe (escape s) = tr
 Check C16_line_single_newline : forall (prefix mid suffix key : list N),
   ~ In NL prefix -> ~ In NL mid -> ~ In NL suffix ->
   exists body, sample_line prefix mid suffix key = body ++ [NL] /\ ~ In NL body.
+Check C16_acceptance_sound :
+  forall (mx : nat) (obs : list dobs), denied_case_ok (mx, obs) = true ->
+  Forall (fun o => exists t1, dstep mx (d_prev o) (d_key o) t1 /\ same_map t1 (d_next o) /\ valid_top mx (d_next o) (d_top o)) obs.
